@@ -77,3 +77,11 @@ package caching
 //@     before[the_key_is_the_digest_of_that_hasher] recv() == res(New, 1, 0) && res(Write, 1, 1) == nil
 //@   at return 3
 //@     before[the_digest_is_returned_as_the_key] arg(1) == nil && dominatedBy(Sum, 1)
+
+// Pruning the validation cache drops only groups (instances) below the given one: what stays cached stays cached.
+//@ func (*GroupedSet).RemoveGroupsLessThan
+//@   property C05 C01
+//@   modifies auto
+//@   maypanic
+//@   at evict 1
+//@     before[only_a_group_below_the_bound_is_evicted] arg(1) == g && g < group && arg(0) == gs
